@@ -667,6 +667,260 @@ Proof.
   destruct (src_F r c (ix_F r' c' i j)) as [sr sc] eqn:Es. cbn [fst snd] in *.
   rewrite trunc_id by apply R.
   destruct (transpose_correct r c a sc sr W R Hm H2 H1) as [Et [_ [Wt _]]].
-  rewrite <- Et. unfold el at 2. rewrite <- (nth_flat c r) by assumption.
+  rewrite <- Et. unfold el. rewrite <- (nth_flat c r) by assumption.
   unfold ix_F in H3. rewrite H3. reflexivity.
+Qed.
+
+(* ------------------------------------------------------------------ reductions *)
+Lemma wv_add_range wa wb x y : inrange x wa -> inrange y wb -> inrange (x + y) (Z.max wa wb + 1).
+Proof.
+  intros [Hx0 Hx1] [Hy0 Hy1].
+  assert (0 <= wa) by (apply (inrange_nonneg_w x); split; assumption).
+  assert (0 <= wb) by (apply (inrange_nonneg_w y); split; assumption).
+  pose proof (pow2_mono wa (Z.max wa wb) ltac:(lia)). pose proof (pow2_mono wb (Z.max wa wb) ltac:(lia)).
+  split; [lia|]. rewrite Z.pow_add_r by lia. lia.
+Qed.
+
+Lemma sum_fold b l : all_inrange b l -> forall w s, b <= w -> inrange s w ->
+  fold_left sum_2 (as_wvs b l) (w, s) = (w + Z.of_nat (length l), s + sumZ l).
+Proof.
+  intros H. induction H as [|x xs Hx _ IH]; intros w s Hw Hs; cbn [as_wvs map fold_left length sumZ fold_right].
+  - f_equal; lia.
+  - fold (as_wvs b xs). fold (sumZ xs). unfold sum_2 at 2. cbn [fst snd].
+    rewrite wv_add_exact by assumption. replace (Z.max w b) with w by lia.
+    rewrite IH; [f_equal; lia|lia|].
+    replace (w + 1) with (Z.max w b + 1) by lia. apply wv_add_range; assumption.
+Qed.
+
+(* reduce(sum_2, wires): the width grows by one per addition and the sum is exact *)
+Theorem reduce_sum_exact b l : all_inrange b l ->
+  snd (reduce1 sum_2 (0, 0) (as_wvs b l)) = sumZ l /\
+  (l <> [] -> fst (reduce1 sum_2 (0, 0) (as_wvs b l)) = b + Z.of_nat (length l) - 1).
+Proof.
+  intros H. destruct l as [|x xs]; [split; [reflexivity|congruence]|].
+  inversion H as [|? ? Hx Hxs]; subst. cbn [as_wvs map reduce1].
+  fold (as_wvs b xs). rewrite (sum_fold b xs Hxs b x ltac:(lia) Hx). cbn [fst snd sumZ fold_right length].
+  split; [reflexivity|]. intros _. lia.
+Qed.
+
+Definition is_max (m : Z) (l : list Z) : Prop := In m l /\ forall x, In x l -> x <= m.
+Definition is_min (m : Z) (l : list Z) : Prop := In m l /\ forall x, In x l -> m <= x.
+
+Lemma max_fold b l : forall w s, snd (fold_left max_2 (as_wvs b l) (w, s)) = fold_left Z.max l s.
+Proof.
+  induction l as [|x xs IH]; intros w s; cbn [as_wvs map fold_left]; [reflexivity|].
+  fold (as_wvs b xs). unfold max_2 at 2. cbn [fst snd]. rewrite IH. f_equal.
+  destruct (s >? x) eqn:E; lia.
+Qed.
+Lemma min_fold b l : forall w s, snd (fold_left min_2 (as_wvs b l) (w, s)) = fold_left Z.min l s.
+Proof.
+  induction l as [|x xs IH]; intros w s; cbn [as_wvs map fold_left]; [reflexivity|].
+  fold (as_wvs b xs). unfold min_2 at 2. cbn [fst snd]. rewrite IH. f_equal.
+  destruct (s <? x) eqn:E; lia.
+Qed.
+
+Lemma fold_max_is_max xs : forall x, is_max (fold_left Z.max xs x) (x :: xs).
+Proof.
+  induction xs as [|y ys IH]; intros x; cbn [fold_left].
+  - split; [left; reflexivity|]. intros z [<-|[]]. lia.
+  - destruct (IH (Z.max x y)) as [Hin Hle]. split.
+    + destruct Hin as [E|Hin]; [|right; right; exact Hin]. rewrite <- E.
+      destruct (Z.max_spec x y) as [[_ ->]|[_ ->]]; [right; left|left]; reflexivity.
+    + intros z [E|[E|Hz]].
+      * specialize (Hle (Z.max x y) (or_introl eq_refl)). lia.
+      * specialize (Hle (Z.max x y) (or_introl eq_refl)). lia.
+      * apply Hle. right. exact Hz.
+Qed.
+Lemma fold_min_is_min xs : forall x, is_min (fold_left Z.min xs x) (x :: xs).
+Proof.
+  induction xs as [|y ys IH]; intros x; cbn [fold_left].
+  - split; [left; reflexivity|]. intros z [<-|[]]. lia.
+  - destruct (IH (Z.min x y)) as [Hin Hle]. split.
+    + destruct Hin as [E|Hin]; [|right; right; exact Hin]. rewrite <- E.
+      destruct (Z.min_spec x y) as [[_ ->]|[_ ->]]; [left|right; left]; reflexivity.
+    + intros z [E|[E|Hz]].
+      * specialize (Hle (Z.min x y) (or_introl eq_refl)). lia.
+      * specialize (Hle (Z.min x y) (or_introl eq_refl)). lia.
+      * apply Hle. right. exact Hz.
+Qed.
+
+Theorem reduce_max_is_max b l : l <> [] -> is_max (snd (reduce1 max_2 (0, 0) (as_wvs b l))) l.
+Proof.
+  intros Hne. destruct l as [|x xs]; [congruence|]. cbn [as_wvs map reduce1]. fold (as_wvs b xs).
+  rewrite max_fold. apply fold_max_is_max.
+Qed.
+Theorem reduce_min_is_min b l : l <> [] -> is_min (snd (reduce1 min_2 (0, 0) (as_wvs b l))) l.
+Proof.
+  intros Hne. destruct l as [|x xs]; [congruence|]. cbn [as_wvs map reduce1]. fold (as_wvs b xs).
+  rewrite min_fold. apply fold_min_is_min.
+Qed.
+
+Lemma col_range a j : mrange a -> all_inrange (bits a) (col a j).
+Proof. intros R. apply Forall_forall. intros x Hin. apply in_map_iff in Hin. destruct Hin as [i [<- _]]. apply R. Qed.
+Lemma row_range a i : mrange a -> all_inrange (bits a) (row a i).
+Proof. intros R. apply Forall_forall. intros x Hin. apply in_map_iff in Hin. destruct Hin as [j [<- _]]. apply R. Qed.
+Lemma col_nonempty r c a j : wfx r c a -> col a j <> [].
+Proof.
+  intros W. unfold col. rewrite (wfx_rows r c a W). destruct W as [_ [Hr _]].
+  destruct r; [lia|]. cbn [seq map]. congruence.
+Qed.
+Lemma row_nonempty r c a i : wfx r c a -> row a i <> [].
+Proof.
+  intros W. unfold row. rewrite (wfx_cols r c a W). destruct W as [_ [_ Hc]].
+  destruct c; [lia|]. cbn [seq map]. congruence.
+Qed.
+
+(* sum/min/max along an axis: Matrix(1, n, bits) whose element is the reduction of the column
+   (axis 0) / row (axis 1), truncated to `bits` (default: the matrix's bits; default max_bits 64) *)
+Theorem sum_axis0 r c a bo j : wfx r c a -> mrange a -> (j < c)%nat ->
+  bits (msum a Ax0 bo) = capb (default_bits a bo) 64 /\
+  el (msum a Ax0 bo) 0 j = sumZ (col a j) mod 2 ^ bits (msum a Ax0 bo).
+Proof.
+  intros W R Hj. unfold msum, mreduce. rewrite (wfx_cols r c a W). split; [reflexivity|].
+  rewrite el_mnew by lia. cbn [mnew bits].
+  rewrite (proj1 (reduce_sum_exact (bits a) (col a j) (col_range a j R))). reflexivity.
+Qed.
+Theorem sum_axis1 r c a bo i : wfx r c a -> mrange a -> (i < r)%nat ->
+  bits (msum a Ax1 bo) = capb (default_bits a bo) 64 /\
+  el (msum a Ax1 bo) 0 i = sumZ (row a i) mod 2 ^ bits (msum a Ax1 bo).
+Proof.
+  intros W R Hi. unfold msum, mreduce. rewrite (wfx_rows r c a W). split; [reflexivity|].
+  rewrite el_mnew by lia. cbn [mnew bits].
+  rewrite (proj1 (reduce_sum_exact (bits a) (row a i) (row_range a i R))). reflexivity.
+Qed.
+(* axis=None returns a WireVector wide enough for the exact total *)
+Theorem sum_all_exact r c a bo : wfx r c a -> mrange a ->
+  el (msum a AxNone bo) 0 0 = sumZ (flat (dat a)) /\
+  bits (msum a AxNone bo) = bits a + Z.of_nat (r * c) - 1.
+Proof.
+  intros W R. unfold msum, mreduce, el. cbn [dat bits get nth].
+  assert (F : all_inrange (bits a) (flat (dat a))).
+  { apply Forall_forall. intros x Hin. destruct (In_nth _ _ 0 Hin) as [k [Hk <-]].
+    rewrite (flat_length r c) in Hk by apply W. destruct (divmod_lt r c k Hk) as [H1 [H2 H3]].
+    rewrite H3. rewrite (nth_flat r c) by (try apply W; assumption). apply R. }
+  destruct (reduce_sum_exact (bits a) (flat (dat a)) F) as [E1 E2]. split; [exact E1|].
+  rewrite E2; [rewrite (flat_length r c) by apply W; reflexivity|].
+  intros E. pose proof (flat_length r c (dat a) (proj1 W)) as L. rewrite E in L. simpl in L.
+  destruct W as [_ [? ?]]. nia.
+Qed.
+
+Theorem max_axis0 r c a bo j : wfx r c a -> (j < c)%nat ->
+  exists m, is_max m (col a j) /\ el (mmax a Ax0 bo) 0 j = m mod 2 ^ bits (mmax a Ax0 bo).
+Proof.
+  intros W Hj. eexists. split; [apply (reduce_max_is_max (bits a)), (col_nonempty r c a j W)|].
+  unfold mmax, mreduce. rewrite (wfx_cols r c a W). rewrite el_mnew by lia. reflexivity.
+Qed.
+Theorem max_axis1 r c a bo i : wfx r c a -> (i < r)%nat ->
+  exists m, is_max m (row a i) /\ el (mmax a Ax1 bo) 0 i = m mod 2 ^ bits (mmax a Ax1 bo).
+Proof.
+  intros W Hi. eexists. split; [apply (reduce_max_is_max (bits a)), (row_nonempty r c a i W)|].
+  unfold mmax, mreduce. rewrite (wfx_rows r c a W). rewrite el_mnew by lia. reflexivity.
+Qed.
+Theorem min_axis0 r c a bo j : wfx r c a -> (j < c)%nat ->
+  exists m, is_min m (col a j) /\ el (mmin a Ax0 bo) 0 j = m mod 2 ^ bits (mmin a Ax0 bo).
+Proof.
+  intros W Hj. eexists. split; [apply (reduce_min_is_min (bits a)), (col_nonempty r c a j W)|].
+  unfold mmin, mreduce. rewrite (wfx_cols r c a W). rewrite el_mnew by lia. reflexivity.
+Qed.
+Theorem min_axis1 r c a bo i : wfx r c a -> (i < r)%nat ->
+  exists m, is_min m (row a i) /\ el (mmin a Ax1 bo) 0 i = m mod 2 ^ bits (mmin a Ax1 bo).
+Proof.
+  intros W Hi. eexists. split; [apply (reduce_min_is_min (bits a)), (row_nonempty r c a i W)|].
+  unfold mmin, mreduce. rewrite (wfx_rows r c a W). rewrite el_mnew by lia. reflexivity.
+Qed.
+Lemma flat_nonempty r c a : wfx r c a -> flat (dat a) <> [].
+Proof.
+  intros W E. pose proof (flat_length r c (dat a) (proj1 W)) as L. rewrite E in L. simpl in L.
+  destruct W as [_ [? ?]]. nia.
+Qed.
+Theorem max_all r c a bo : wfx r c a -> is_max (el (mmax a AxNone bo) 0 0) (flat (dat a)).
+Proof. intros W. unfold mmax, mreduce, el. cbn [dat get nth]. apply reduce_max_is_max, (flat_nonempty r c a W). Qed.
+Theorem min_all r c a bo : wfx r c a -> is_min (el (mmin a AxNone bo) 0 0) (flat (dat a)).
+Proof. intros W. unfold mmin, mreduce, el. cbn [dat get nth]. apply reduce_min_is_min, (flat_nonempty r c a W). Qed.
+
+(* ------------------------------------------------------------------ argmax *)
+(* n is the FIRST position of m in l *)
+Definition first_index (m : Z) (l : list Z) (n : nat) : Prop :=
+  (n < length l)%nat /\ nth n l 0 = m /\ forall n', (n' < n)%nat -> nth n' l 0 <> m.
+
+Lemma argmax_from_first l : forall m idx, In m l ->
+  exists n, argmax_from m idx l = idx + Z.of_nat n /\ first_index m l n.
+Proof.
+  induction l as [|x xs IH]; intros m idx Hin; [destruct Hin|]. cbn [argmax_from].
+  destruct (m =? x) eqn:E.
+  - exists 0%nat. split; [lia|]. split; [cbn; lia|]. split; [cbn; lia|]. intros n' Hn'. lia.
+  - assert (Hin' : In m xs) by (destruct Hin as [->|H]; [lia|exact H]).
+    destruct (IH m (idx + 1) Hin') as [n [E1 [L [N F]]]].
+    exists (S n). split; [lia|]. split; [cbn [length]; lia|]. split; [exact N|].
+    intros [|n'] Hn'; cbn [nth]; [lia|]. apply F. lia.
+Qed.
+
+Theorem argmax_all_first_max r c a bo : wfx r c a ->
+  exists m n, is_max m (flat (dat a)) /\ first_index m (flat (dat a)) n /\
+              el (margmax a AxNone bo) 0 0 = Z.of_nat n.
+Proof.
+  intros W. pose proof (max_all r c a bo W) as Hm.
+  destruct (argmax_from_first (flat (dat a)) _ 0 (proj1 Hm)) as [n [E F]].
+  exists (el (mmax a AxNone bo) 0 0), n. split; [exact Hm|]. split; [exact F|].
+  unfold margmax, el at 1. cbn [dat get nth]. rewrite E. lia.
+Qed.
+
+(* along an axis the first maximal index is returned (mod 2^bits) PROVIDED the `bits` argument
+   is at least the matrix's element width; see argmax_small_bits_refuted for the other case *)
+Theorem argmax_axis0_first_max r c a bo j : wfx r c a -> mrange a -> (j < c)%nat ->
+  bits a <= capb (default_bits a bo) 64 ->
+  exists m n, is_max m (col a j) /\ first_index m (col a j) n /\
+              el (margmax a Ax0 bo) 0 j = Z.of_nat n mod 2 ^ bits (margmax a Ax0 bo).
+Proof.
+  intros W R Hj Hb. destruct (max_axis0 r c a bo j W Hj) as [m [Hm Em]].
+  assert (Hr : inrange m (bits a)).
+  { destruct Hm as [Hin _]. pose proof (col_range a j R) as F. unfold all_inrange in F.
+    rewrite Forall_forall in F. apply F, Hin. }
+  assert (Em' : el (mmax a Ax0 bo) 0 j = m).
+  { rewrite Em. apply Z.mod_small. unfold mmax, mreduce. cbn [mnew bits].
+    destruct Hr as [H0 H1]. split; [exact H0|].
+    assert (0 <= bits a) by (apply (inrange_nonneg_w m); split; assumption).
+    pose proof (pow2_mono (bits a) (capb (default_bits a bo) 64) ltac:(lia)). lia. }
+  destruct (argmax_from_first (col a j) m 0 (proj1 Hm)) as [n [E F]].
+  exists m, n. split; [exact Hm|]. split; [exact F|].
+  unfold margmax. rewrite (wfx_cols r c a W). rewrite el_mnew by lia. cbn [mnew bits].
+  rewrite Em', E. reflexivity.
+Qed.
+Theorem argmax_axis1_first_max r c a bo i : wfx r c a -> mrange a -> (i < r)%nat ->
+  bits a <= capb (default_bits a bo) 64 ->
+  exists m n, is_max m (row a i) /\ first_index m (row a i) n /\
+              el (margmax a Ax1 bo) 0 i = Z.of_nat n mod 2 ^ bits (margmax a Ax1 bo).
+Proof.
+  intros W R Hi Hb. destruct (max_axis1 r c a bo i W Hi) as [m [Hm Em]].
+  assert (Hr : inrange m (bits a)).
+  { destruct Hm as [Hin _]. pose proof (row_range a i R) as F. unfold all_inrange in F.
+    rewrite Forall_forall in F. apply F, Hin. }
+  assert (Em' : el (mmax a Ax1 bo) 0 i = m).
+  { rewrite Em. apply Z.mod_small. unfold mmax, mreduce. cbn [mnew bits].
+    destruct Hr as [H0 H1]. split; [exact H0|].
+    assert (0 <= bits a) by (apply (inrange_nonneg_w m); split; assumption).
+    pose proof (pow2_mono (bits a) (capb (default_bits a bo) 64) ltac:(lia)). lia. }
+  destruct (argmax_from_first (row a i) m 0 (proj1 Hm)) as [n [E F]].
+  exists m, n. split; [exact Hm|]. split; [exact F|].
+  unfold margmax. rewrite (wfx_rows r c a W). rewrite el_mnew by lia. cbn [mnew bits].
+  rewrite Em', E. reflexivity.
+Qed.
+
+(* with bits < element width the code compares the TRUNCATED maximum with the elements:
+   column [2;3] (2-bit elements), bits=1: the first maximal index is 1, the code yields 0 *)
+Theorem argmax_small_bits_refuted :
+  exists a bo j m n, wfx 2 1 a /\ mrange a /\ is_max m (col a j) /\ first_index m (col a j) n /\
+     el (margmax a Ax0 bo) 0 j <> Z.of_nat n mod 2 ^ bits (margmax a Ax0 bo).
+Proof.
+  exists (MkMx 2 64 [[2]; [3]]), (Some 1), 0%nat, 3, 1%nat.
+  split; [repeat split; cbn; try lia; repeat constructor|].
+  split.
+  { intros i j. unfold el, get, inrange. cbn [dat bits].
+    destruct i as [|[|i]]; cbn [nth].
+    1,2: destruct j as [|j]; cbn [nth]; [lia|destruct j; cbn; lia].
+    destruct i; cbn [nth]; destruct j; cbn; lia. }
+  assert (C : col (MkMx 2 64 [[2]; [3]]) 0 = [2; 3]) by reflexivity. rewrite C.
+  split; [split; [cbn; tauto|intros x [E|[E|[]]]; lia]|].
+  split; [split; [cbn; lia|split; [reflexivity|]]; intros [|n'] H; cbn; lia|].
+  vm_compute. congruence.
 Qed.
